@@ -49,7 +49,8 @@ let asu_line row tnt hkl =
 let handle cmd args : string option =
   let w = words args in
   match cmd with
-  | "mul" -> let l = ints w in Some (op_s (op_mul (op_of (take 13 l)) (op_of (drop 13 l))))
+  | "mul" -> let l = ints w in
+    Some (match op_mul_checked (op_of (take 13 l)) (op_of (drop 13 l)) with Some o -> op_s o | None -> "EXC")
   | "combine" -> let l = ints w in
     Some (match combine (op_of (take 13 l)) (op_of (drop 13 l)) with Some o -> op_s o | None -> "EXC")
   | "inverse" -> Some (match inverse (op_of (ints w)) with Some o -> op_s o | None -> "EXC")
